@@ -117,7 +117,7 @@ class Gnim(_Cached):
         def before(a, k):
             if case.get('delay'):
                 _msk.jitter()
-        with _msk.wrapped_public(emd.sift, 'get_next_imf', before):
+        with _msk.wrapped_public(emd.sift, 'get_next_imf', before), _msk.time_limit(60):
             for i, npr in enumerate(case['nprocs']):
                 arg = x if i % 2 == 0 else x[:, None]
                 imf, flag = emd.sift.get_next_imf_mask(arg, case['z'], case['amp'], nphases=case['nphases'],
@@ -305,7 +305,7 @@ class MaskSift(_Cached):
         def before(a, k):
             if case.get('delay'):
                 _msk.jitter()
-        with _msk.wrapped_public(emd.sift, 'get_next_imf', before):
+        with _msk.wrapped_public(emd.sift, 'get_next_imf', before), _msk.time_limit(120):
             for npr in case['nprocs']:
                 imf, mf = self._call(case, x, npr)
                 imf = np.asarray(imf)
